@@ -1756,6 +1756,10 @@ func (e *Env) execQuery(what string, q *Query) {
 		if s.Len() != len(set) {
 			e.failf("%s: after One() the search %s reports Len()=%d, it matched %d objects", what, q, s.Len(), len(set))
 		}
+		// asking the same search value for its first result again gives a first result again
+		if o2, err2 := s.One(); err2 != nil || !set[o2.UUID()] {
+			e.failf("%s: One() called a second time on the search %s: err=%v (the search has %d matches)", what, q, err2, len(set))
+		}
 		objs = []sod.Object{o}
 		wantN = 1
 	case "assign":
